@@ -85,19 +85,19 @@ def dynCount (es : List DynEntry) : Nat := min es.length (firstNull es + 1)
 /-! ### string table (gABI "String Table") -/
 
 /-- a C string: up to the first NUL -/
-def cstr (s : Bytes) : Bytes := s.takeWhile (· != 0)
+def dynCstr (s : Bytes) : Bytes := s.takeWhile (· != 0)
 
 /-- the NUL-terminated string at offset `off`, if the table holds one -/
-def strAt (tbl : Bytes) (off : Nat) : Option Bytes :=
+def dynStrAt (tbl : Bytes) (off : Nat) : Option Bytes :=
   if off < tbl.length then
-    if (tbl.drop off).contains 0 then some (cstr (tbl.drop off)) else none
+    if (tbl.drop off).contains 0 then some (dynCstr (tbl.drop off)) else none
   else none
 
 /-- adding a string: offset 0 is reserved for the empty string, strings are appended;
     returns the new table and the offset of the string -/
 def strAdd (tbl : Bytes) (s : Bytes) : Bytes × Nat :=
   let t0 := if tbl.length = 0 then [0] else tbl
-  (t0 ++ (cstr s ++ [0]), t0.length)
+  (t0 ++ (dynCstr s ++ [0]), t0.length)
 
 /-! ### observable behaviour of an accessor -/
 
@@ -112,7 +112,7 @@ inductive GetOut
     (tables are < 4 GiB). -/
 def resolve (tbl : Option Bytes) (e : DynEntry) : GetOut :=
   if stringValued e.tag then
-    match tbl.bind (fun t => strAt t (e.val % 4294967296)) with
+    match tbl.bind (fun t => dynStrAt t (e.val % 4294967296)) with
     | some s => .ok e.tag e.val s
     | none => .nostr e.tag e.val
   else .ok e.tag e.val []
